@@ -197,8 +197,8 @@ theorem mem_verts_of_valid (g : AGraph Vtx) (hwf : g.WF) (cur : Vtx) (p : List V
 
 theorem planOne_unsat (target : Vtx) (reaching : List Vtx) (tr rd : Bool) (ps : PlanSt) (cp : Vtx × List Vtx) :
     (planOne target reaching tr rd ps cp).unsat =
-      if (if tr then cp.2.any (fun v => decide (v ∈ reaching)) else cp.2.any (fun v => decide (v = target)))
-      then ps.unsat ++ [cp.1.label] else ps.unsat := by
+      ps.unsat ++ ((if tr then cp.2.filter (fun v => decide (v ∈ reaching))
+        else cp.2.filter (fun v => decide (v = target))).map (fun _ => cp.1.label)) := by
   unfold planOne
   dsimp only
   split <;> rfl
@@ -211,12 +211,8 @@ theorem plan_unsat_mono (target : Vtx) (reaching : List Vtx) (tr rd : Bool) (l :
     rw [List.foldl_cons]
     apply ih
     rw [planOne_unsat]
-    generalize (if tr then cp.2.any (fun v => decide (v ∈ reaching))
-      else cp.2.any (fun v => decide (v = target))) = b
-    cases b
-    · exact h
-    · intro h'
-      exact h (List.append_eq_nil_iff.1 h').1
+    intro h'
+    exact h (List.append_eq_nil_iff.1 h').1
 
 theorem plan_unsat_empty (target : Vtx) (reaching : List Vtx) (rd : Bool) (l : List (Vtx × List Vtx))
     (ps : PlanSt) (h : (l.foldl (planOne target reaching true rd) ps).unsat = []) :
@@ -230,9 +226,10 @@ theorem plan_unsat_empty (target : Vtx) (reaching : List Vtx) (rd : Bool) (l : L
     · intro v hv hr
       apply plan_unsat_mono target reaching true rd rest _ _ h
       rw [planOne_unsat]
-      have : (cp.2.any fun v => decide (v ∈ reaching)) = true :=
-        List.any_eq_true.2 ⟨v, hv, by simpa using hr⟩
-      simp [this]
+      intro h'
+      have h2 := (List.append_eq_nil_iff.1 h').2
+      simp only [if_true, List.map_eq_nil_iff, List.filter_eq_nil_iff] at h2
+      exact h2 v hv (by simpa using hr)
     · exact ih _ h cp hcp
 
 /-! ### one unfolding of `reach` -/
